@@ -82,14 +82,10 @@ def parseExpression(expression):
     Handle Function Calls
     '''
     if expression["type"] == 'call':
-        try:
-            macro = builtins[expression["name"].lower()]
-            return macro(expression["args"])
-        except TypeError as e:
-            raise e
-        except KeyError as e:
-            logging.warning(expression["name"].lower() + " has not been implemented yet! Skipping...")
-            return "0"
+        if expression["name"].lower() not in builtins:
+            raise Exception('Unknown builtin function: {}'.format(expression["name"]))
+        macro = builtins[expression["name"].lower()]
+        return macro(expression["args"])
 
     '''
     Handle Operators
